@@ -17,7 +17,7 @@ ENV = dict(os.environ, GOFLAGS="-mod=mod", GOPROXY="off", GOSUMDB="off", GOTOOLC
 ALSO = {"C01": ["C02"], "C01b": ["C02", "C08"], "C02": ["C01"], "C06": ["C01", "C02"], "C08": ["C01"], "C08b": ["C05"],
         "C10": ["C01", "C02"], "C17b": [], "C14b": [], "C03": ["C10"], "C09": ["C18"], "C04": ["C10"],
         "C06b": ["C01", "C02"], "C06c": ["C01"], "C06d": ["C01"], "C06e": ["C01"], "C02b": ["C20"], "C14c": ["C02"],
-        "C18": ["C09", "C14"], "C10b": ["C01"], "C04b": ["C03"], "C16b": ["C01"], "C09c": ["C18", "C14"], "C14e": []}
+        "C18": ["C09", "C14"], "C04b": ["C03"], "C16b": ["C01"], "C09c": ["C18", "C14"], "C14e": []}
 
 
 def sh(cmd, cwd=None, timeout=3600):
@@ -65,6 +65,7 @@ def run_checks(sid, props):
             t0 = time.time()
             rc, out = sh(f"{VERIF}/bin/dvc check -p {p} -tier quick -repo {wt} -verif {out_dir}")
             viol = [l.strip() for l in out.splitlines() if l.startswith("  failed obligation") or l.startswith("  C0") or "MISMATCH" in l]
+            viol += [l[l.index("no-failing-input-found ("):].strip() for l in out.splitlines() if l.startswith("VIOLATION") and "no-failing-input-found (" in l]
             nviol = len([l for l in out.splitlines() if l.startswith("VIOLATION")])
             results[p] = {"exit": rc, "violations": nviol, "wall_s": round(time.time() - t0, 1),
                           "reported": [re.sub(r"\s+", " ", v)[:260] for v in viol[:6]]}
